@@ -248,6 +248,9 @@ class Engine:
             st.assume(n >= 0)
             get = self.fresh_elemfn(et, base, st)
             return st.alloc(HSeq(n, get, numpy=(k == "arr"), etype=et))
+        if k == "obj":
+            cls, ftypes = t.args
+            return st.alloc(HObj(cls, {fn_: self.fresh(ft, "%s.%s" % (base, fn_), st) for fn_, ft in ftypes}))
         if k == "recseq":
             cls, ftypes = t.args
             n = z3.Int(fresh_name(base + ".len"))
@@ -457,6 +460,8 @@ class Engine:
             return VConc(n)
         if n in self.classes():
             return VConc("class:" + n)
+        if any(isinstance(f_, ast.FunctionDef) and f_.name == n for f_ in self.tree.body):
+            return VConc("func:" + n)
         if ("builtin:" + n) in self.models or n in self.models:
             return VConc("builtin:" + n if ("builtin:" + n) in self.models else n)
         if n in ("np", "numpy", "math", "os", "sys", "itertools", "sympy", "utils", "simplifier", "generator",
@@ -907,6 +912,11 @@ class Engine:
                 kt = self.key_term(key)
                 self.oblige(st, "key is present in dict (no KeyError)", o.has(kt), "safety", node)
                 return o.val(kt)
+            if isinstance(o, HObj):
+                key = self.ev(sl, st)
+                if isinstance(key, VStr) and key.s in o.fields:
+                    return o.fields[key.s]
+                raise Unsupported("subscript of a %s object (line %d)" % (o.cls, node.lineno))
             if isinstance(o, HRec):
                 idx = self.ev(sl, st)
                 if isinstance(idx, VMaybeNone):
@@ -982,6 +992,9 @@ class Engine:
 
     def ev_JoinedStr(self, node, st):
         return self.models["fstring"](self, st, node)
+
+    def ev_Dict(self, node, st):
+        return VConc("dictlit", (node,))
 
     def ev_Lambda(self, node, st):
         return VConc("lambda", (node, dict(st.env)))
@@ -1564,6 +1577,8 @@ class Engine:
         n = z3.simplify(n)
         ordn = self.loop_ordinal(node)
         spec = self.cur.loops.get(ordn) if self.cur else None
+        if spec is None and self.cur is not None and getattr(self.cur, "loop_select", None) is not None:
+            spec = self.cur.loop_select(node)
         # concrete small loops are unrolled
         if z3.is_int_value(n) and (spec is None or spec.unroll) and n.as_long() <= 64:
             cnt = n.as_long()
